@@ -1,24 +1,23 @@
 (* C01 — type safety: accepted programs never hit a run-time protocol error.
-   PROVED (no axioms; hypotheses are explicit premises of the theorems):
+   PROVED (no axioms; hypotheses are explicit premises of the theorems), for EVERY form of the
+   language — the connectives {1, ⊗, ⊸, ⊕, &, ↓, ↑} on both sides, cut, call, print, forward (both
+   polarities), drop (droppable forwards, GC requests), split and processes with several providers
+   (DUP) — and the two POLARIZED execution modes (asynchronous one-place buffers, synchronous rendezvous):
      * C01_step_error_inv : exact characterisation of when the interpreter model reports an error
-       (all modes, all forms) — the list the invariants have to exclude;
-     * C01_typed_subst / C01_typed_weaken / C01_preservation / C01_no_error_async : the structural
-       run-time typing (spec/RtTyping.v) is preserved by every asynchronous step and excludes EVERY
-       run-time error, for the connectives with weakening {1, ⊗, ⊸, ⊕, &, ↓, ↑, cut, id, call, print,
-       drop — with the droppable forwards and GC requests the interpreter creates for it}
-       (premises: `teq_laws` for the type equality, the function table is typed, nobody uses a closed
-       channel — the part of Topo that typing cannot give);
+       (all three modes, all forms) — the list the invariants have to exclude;
+     * C01_typed_subst / C01_typed_weaken / C01_preservation(_polarized) / C01_no_error_async /
+       C01_no_error_polarized : the structural run-time typing of configurations (spec/RtTyping.v) is
+       preserved by every step and excludes EVERY run-time error (premises: `teq_laws` for the type
+       equality, the function table is typed, nobody uses a closed channel — the one part of Topo
+       that typing cannot give);
      * C01_initial_typed : the initial configuration of a statically typed program is typed;
-     * C01_preservation_polarized / C01_no_error_polarized : the same for BOTH polarized modes
-       (asynchronous and synchronous = rendezvous steps);
-     * C01_safety_partial : no schedule of an accepted program of the fragment reaches an error in
-       asynchronous or synchronous mode — premises: teq_ok, tc_annotations_typed, topo_reachable
-       (see proofs/RtTheorems.v).
+     * C01_safety_partial : no schedule of an accepted closed program reaches an error in either
+       polarized mode — premises: teq_ok, tc_annotations_typed, topo_reachable (proofs/RtTheorems.v);
      * C01_static_check_sound / C01_safety_checked_partial : the premise tc_annotations_typed is
        replaced by the verdict of a verified checker on the annotated program (run on the whole
-       suite by lib/vlib/props/C01.py);
-   NOT proved: `safety_statement` (contraction: split / DUP / several provider names; and the
-   non-polarized mode): covered by the correspondence run only. *)
+       suite by lib/vlib/props/C01.py).
+   NOT proved: the non-polarized mode (`safety_statement` quantifies over the three modes), and the
+   premises teq_laws (spec/TypEq.v) and topo_reachable (tested by proofs/TopoCheck.v on every suite run). *)
 From stdpp Require Import gmap strings.
 Require Import Grits.Base Grits.ModeDefs Grits.Modes Grits.STypes Grits.Forms Grits.Subst Grits.TcDeps Grits.Expand
                Grits.Tc Grits.TcTop Grits.Runtime Grits.spec.RtTyping Grits.spec.Topo
